@@ -315,6 +315,7 @@ type c41Step struct {
 	textAfterCall string // d2format.Format(g.AST) of the INPUT graph after the call
 	next   string
 	kf     []string
+	movePanics bool // c36MovePanics, decided before the call (the call rewrites the references)
 }
 
 func c41ErrClass(err error) string {
@@ -343,6 +344,7 @@ func c41RunStep(g *d2graph.Graph, board []string, op *c37Op) *c41Step {
 	st.text = d2format.Format(g.AST)
 	st.before = c41ProjectAll(g)
 	st.kf = c41KFBefore(g, board, op)
+	st.movePanics = c36MovePanics(op)
 	st.res = c37Apply(g, board, op)
 	st.next = st.text
 	if st.res.tmo || st.res.panic != "" {
@@ -517,7 +519,7 @@ func c41KFBefore(g *d2graph.Graph, board []string, op *c37Op) []string {
 
 func c41KF(st *c41Step) []string {
 	kf := append([]string{}, st.kf...)
-	if c36MovePanics(st.op) {
+	if st.movePanics {
 		kf = append(kf, "C36-move-with-descendants-dotted-key-panics")
 	}
 	if st.res.err != nil && c41ErrClass(st.res.err) == "recompile" {
@@ -633,8 +635,52 @@ func c41ReplaceCases(r *Rng, text string, class string) []Case {
 	return out
 }
 
+// texts that only exercise ReplaceBoardNode (they need not compile): repeated containers, dotted
+// container keys, boards without a map, a board name used under two kinds of container
+var c41ReplaceCorpus = []string{
+	"layers: {\n  x: {\n    a\n  }\n}\nlayers: {\n  y: {\n    b\n  }\n  x: {\n    c\n  }\n}\nscenarios: {\n  x: {\n    d\n  }\n  z: {\n    layers: {\n      q: {\n        e\n      }\n    }\n  }\n}\n",
+	"layers.w: {\n  w: {\n    f\n  }\n}\nsteps: {\n  x\n  y: {\n    g\n  }\n  x: {\n    h\n  }\n}\n",
+	"scenarios: {\n  s: {\n    steps: {\n      t: 1\n    }\n    steps: {\n      t: {\n        k\n      }\n    }\n  }\n  s: {\n    layers: {\n      t: {\n        m\n      }\n    }\n  }\n}\n",
+	"a -> b\nlayers: x\nlayers: {\n  # comment\n  x.y: {\n    p\n  }\n  x: {\n    q\n    scenarios: {\n      x: {\n        r\n      }\n    }\n  }\n}\n",
+}
+var c41ReplacePaths = [][]string{{"x"}, {"y"}, {"z"}, {"z", "q"}, {"w"}, {"q"}, {"x", "y"}, {"s"}, {"s", "t"}, {"t"}, {"x", "x"}, {"x", "x", "x"}, {}}
+
+func c41ReplaceCorpusCases() []Case {
+	var out []Case
+	for _, text := range c41ReplaceCorpus {
+		for _, path := range c41ReplacePaths {
+			ast2, _ := d2parser.Parse("", strings.NewReader("zz: 1\nyy\n"), nil)
+			fresh, err := d2parser.Parse("", strings.NewReader(text), nil)
+			if err != nil {
+				continue
+			}
+			before := c41CoqNodes(fresh)
+			var ok bool
+			var pan string
+			func() {
+				defer func() {
+					if e := recover(); e != nil {
+						pan = fmt.Sprint(e)
+					}
+				}()
+				ok = d2oracle.ReplaceBoardNode(fresh, ast2, path)
+			}()
+			c := Case{Class: "replace-corpus", Nontrivial: len(path) > 0, Key: "R|" + text + "|" + strings.Join(path, "/")}
+			c.Input = map[string]any{"text": text, "board": path}
+			c.Impl = map[string]any{"replaced": ok}
+			if pan != "" {
+				c.ImplFail = append(c.ImplFail, "panic in ReplaceBoardNode: "+pan)
+			}
+			c.Coq = fmt.Sprintf("KReplace %s %s %s %s %s", before, c41CoqNodes(ast2), c37CoqPath(path), coqBool(ok), c41CoqNodes(fresh))
+			out = append(out, c)
+		}
+	}
+	return out
+}
+
 func c41Gen(r *Rng, tier string, n int) []Case {
 	var out []Case
+	out = append(out, c41ReplaceCorpusCases()...)
 	emit := func(class string) func(st *c41Step, s int) bool {
 		return func(st *c41Step, s int) bool {
 			c := c41EditCase(st, class, s)
